@@ -126,7 +126,7 @@ class Src:
 
     def impl_range(self, header_rx):
         """header_rx is matched against masked text, must be followed by '{'."""
-        mo = self._uniq(r'^[ \t]*' + header_rx + r'\s*\{', 0, len(self.m), 'impl')
+        mo = self._uniq(r'^[ \t]*' + header_rx + r'(?:\s+where\b[^{;]*)?\s*\{', 0, len(self.m), 'impl')
         ob = mo.end() - 1
         cb = match_close(self.m, ob)
         return mo.start(), ob, cb
